@@ -11,17 +11,21 @@ class PDDLFunction:
     signature: SignatureType
     stored_value: float
     repeating_variables: Dict[str, int]
+    arguments: Optional[List[str]]
 
     def __init__(
         self,
         name: Optional[str] = None,
         signature: Optional[SignatureType] = None,
         repeating_variables: Optional[Dict[str, int]] = {},
+        arguments: Optional[List[str]] = None,
     ):
         self.name = name
         self.signature = signature
         self.stored_value = 0
         self.repeating_variables = repeating_variables
+        # the positional arguments; the name-keyed signature cannot hold the position of a repeated argument.
+        self.arguments = list(arguments) if arguments is not None else None
 
     def __eq__(self, other: "PDDLFunction") -> bool:
         """Checks whether two functions are considered equal.
@@ -57,7 +61,7 @@ class PDDLFunction:
     def copy(self) -> "PDDLFunction":
         """Creates a copy of the function."""
         copied_function = PDDLFunction(
-            self.name, self.signature, self.repeating_variables
+            self.name, self.signature, self.repeating_variables, self.arguments
         )
         copied_function.stored_value = self.stored_value
         return copied_function
@@ -75,7 +79,10 @@ class PDDLFunction:
 
     @property
     def _arguments(self) -> List[str]:
-        """The function's arguments with their multiplicity (repeated arguments first)."""
+        """The function's arguments with their multiplicity (in their positions when these are known)."""
+        if self.arguments is not None:
+            return list(self.arguments)
+
         function_variables = []
         for repeating_variable, num_repeats in self.repeating_variables.items():
             function_variables.extend([repeating_variable] * num_repeats)
@@ -116,6 +123,11 @@ class PDDLFunction:
         }
         self.signature.clear()
         self.signature.update(renamed_signature)
+        if self.arguments is not None:
+            self.arguments = [
+                old_to_new_param_names.get(argument, argument)
+                for argument in self.arguments
+            ]
 
     def __str__(self):
         signature_str_items = []
